@@ -1,5 +1,5 @@
 //! C19: tensor indexing is a row-major bijection, out-of-range indices panic, equality needs shape AND elements.
-//! input encoding: "eq;d0,d1;e0,e1"  |  "idx;d0,d1,d2;i0,i1,i2"
+//! input encoding: "eq;d0,d1;e0,e1"  |  "idx;d0,d1,d2;i0,i1,i2"  |  "rank;<D>;<d0,..>" (every check of `rank_case` for that shape)
 use crate::{guarded, Cex, Outcome};
 use rlib_tensor::Tensor;
 
@@ -48,7 +48,119 @@ fn check_idx(d: [usize; 3], i: [usize; 3]) -> Option<Cex> {
     })
 }
 
+use rlib_io::{Reader, Writer};
+use std::io::Cursor;
+
+fn shapes<const D: usize>(max: usize) -> Vec<[usize; D]> {
+    let mut out = vec![[1usize; D]];
+    loop {
+        let mut d = *out.last().unwrap();
+        let mut k = D;
+        while k > 0 && d[k - 1] == max { d[k - 1] = 1; k -= 1; }
+        if k == 0 { break; }
+        d[k - 1] += 1;
+        out.push(d);
+    }
+    out
+}
+
+/// everything the property says about one shape of rank D (the quantifier: ranks 1..4, extents <= 5, every valid index, every index out of
+/// range in exactly one dimension, IO round trip, equality against every other shape with the same number of elements)
+fn rank_case<const D: usize>(d: [usize; D], others: &[[usize; D]]) -> Option<(String, String)> {
+    let n: usize = d.iter().product();
+    let r = guarded(|| {
+        let v: Vec<u32> = (0..n as u32).map(|x| x * 7 + 3).collect();
+        let t = Tensor::<u32, D>::from_vec(d, v.clone());
+        let ts = Tensor::<u32, D>::from_slice(d, &v);
+        if !(t == ts) { return Some(("from_vec and from_slice of the same data differ".to_string(), "equal".to_string())); }
+        if t.iter().cloned().collect::<Vec<u32>>() != v { return Some(("iter() is not the row-major order of the data".into(), "row-major".into())); }
+        if *t.dims() != d || (0..D).any(|k| t.dim(k) != d[k]) { return Some((format!("dims() = {:?}", t.dims()), format!("{:?}", d))); }
+        // every valid multi-index, in row-major order, addresses the next element; writing through one index changes exactly that element
+        let mut idx = [0usize; D];
+        let mut w = Tensor::<u32, D>::new(d, 0u32);
+        for off in 0..n {
+            if t[idx] != v[off] || t.get_index(idx) != off { return Some((format!("t[{:?}] on shape {:?} = {} (offset {})", idx, d, t[idx], t.get_index(idx)), format!("{} (offset {})", v[off], off))); }
+            w[idx] = v[off];
+            let mut k = D;
+            while k > 0 { if idx[k - 1] + 1 < d[k - 1] { idx[k - 1] += 1; break; } idx[k - 1] = 0; k -= 1; }
+        }
+        if !(w == t) { return Some((format!("a tensor of shape {:?} filled through IndexMut in row-major order differs from from_vec", d), "equal".into())); }
+        // equality: same shape and data; one element changed; same data under every other shape with as many elements
+        let mut u = t.clone();
+        if !(u == t) || u != t { return Some(("a clone compares unequal".into(), "equal".into())); }
+        let last = d.map(|x| x - 1);
+        u[last] += 1;
+        if u == t { return Some((format!("shape {:?}: tensors differing in the last element compare equal", d), "unequal".into())); }
+        for o in others {
+            let m: usize = o.iter().product();
+            if m == n && *o != d && Tensor::<u32, D>::from_vec(*o, v.clone()) == t {
+                return Some((format!("Tensor::from_vec({:?}, v) == Tensor::from_vec({:?}, v)", o, d), "false (tensors are equal only when shape and elements agree)".into()));
+            }
+        }
+        // IO round trip: write, read back with the same shape
+        let mut buf: Vec<u8> = Vec::new();
+        { let mut wr = Writer::new(Box::new(&mut buf)); wr.write(&t); wr.flush(); }
+        let text = String::from_utf8_lossy(&buf).to_string();
+        let back = { let mut rd = Reader::new(Box::new(Cursor::new(buf.clone()))); Tensor::<u32, D>::read(d, &mut rd) };
+        if !(back == t) || back.iter().cloned().collect::<Vec<u32>>() != v { return Some((format!("shape {:?} written as {:?} reads back as {:?}", d, text, back.iter().cloned().collect::<Vec<u32>>()), format!("{:?}", v))); }
+        None
+    });
+    let r = match r { Ok(x) => x, Err(e) => Some((format!("shape {:?}: {}", d, e), "no panic".into())) };
+    if r.is_some() { return r; }
+    // an index out of range in exactly one dimension is rejected, also when its flattened offset would still be inside the storage
+    let mut idx = [0usize; D];
+    loop {
+        for k in 0..D {
+            for over in [d[k], d[k] + 1] {
+                let mut bad = idx; bad[k] = over;
+                let t = Tensor::<u32, D>::new(d, 5u32);
+                let rd = guarded(|| t[bad]);
+                let mut t2 = Tensor::<u32, D>::new(d, 5u32);
+                let wr = guarded(move || { t2[bad] = 1; });
+                if rd.is_ok() || wr.is_ok() { return Some((format!("index {:?} on shape {:?} is accepted ({})", bad, d, if rd.is_ok() { "read" } else { "write" }), "a panic".into())); }
+            }
+        }
+        let mut k = D;
+        while k > 0 { if idx[k - 1] + 1 < d[k - 1] { idx[k - 1] += 1; break; } idx[k - 1] = 0; k -= 1; }
+        if k == 0 { break; }
+    }
+    // zero extents and data of the wrong length are rejected at construction
+    for k in 0..D {
+        let mut z = d; z[k] = 0;
+        if guarded(|| Tensor::<u32, D>::from_vec(z, vec![])).is_ok() || guarded(|| Tensor::<u32, D>::new(z, 0)).is_ok() || guarded(|| Tensor::<u32, D>::from_slice(z, &[])).is_ok() {
+            return Some((format!("a tensor with shape {:?} was constructed", z), "a panic (zero extent)".into()));
+        }
+    }
+    for m in [n - 1, n + 1] {
+        if guarded(|| Tensor::<u32, D>::from_vec(d, vec![0; m])).is_ok() || guarded(|| Tensor::<u32, D>::from_slice(d, &vec![0; m])).is_ok() {
+            return Some((format!("shape {:?} accepted {} elements", d, m), "a panic (length mismatch)".into()));
+        }
+    }
+    None
+}
+fn rank_all<const D: usize>(max: usize, cases: &mut u64) -> Option<Cex> {
+    let all = shapes::<D>(max);
+    for d in &all {
+        *cases += 1;
+        if let Some((o, e)) = rank_case::<D>(*d, &all) {
+            return Some(Cex { input: format!("rank;{};{}", D, d.iter().map(|x| x.to_string()).collect::<Vec<_>>().join(",")), observed: o, expected: e });
+        }
+    }
+    None
+}
+fn rank_replay(dd: usize, d: &[usize]) -> Option<Cex> {
+    fn go<const D: usize>(d: &[usize]) -> Option<(String, String)> { let mut a = [1usize; D]; for k in 0..D.min(d.len()) { a[k] = d[k].max(1); } rank_case::<D>(a, &shapes::<D>(5)) }
+    let r = match dd { 1 => go::<1>(d), 2 => go::<2>(d), 3 => go::<3>(d), _ => go::<4>(d) };
+    r.map(|(o, e)| Cex { input: format!("rank;{};{}", dd, d.iter().map(|x| x.to_string()).collect::<Vec<_>>().join(",")), observed: o, expected: e })
+}
+
 pub fn run(_seed: u64, replay: Option<String>) -> Outcome {
+    if let Some(r) = &replay {
+        if let Some(rest) = r.strip_prefix("rank;") {
+            let p: Vec<&str> = rest.split(';').collect();
+            return Outcome { cex: rank_replay(p[0].parse().unwrap_or(2), &nums(p.get(1).unwrap_or(&""))), cases: 1 };
+        }
+    }
     if let Some(r) = replay {
         let r_in = r.clone();
         let p: Vec<&str> = r.split(';').collect();
@@ -65,6 +177,11 @@ pub fn run(_seed: u64, replay: Option<String>) -> Outcome {
         return Outcome { cex: c, cases: 1 };
     }
     let mut cases = 0;
+    // the property's quantifier: ranks 1..4, extents up to 5 (rank 4: up to 4 in the quick tier)
+    let thorough = std::env::var("VERIF_TIER").map(|t| t == "thorough").unwrap_or(false);
+    if let Some(c) = rank_all::<1>(5, &mut cases).or_else(|| rank_all::<2>(5, &mut cases)).or_else(|| rank_all::<3>(5, &mut cases)).or_else(|| rank_all::<4>(if thorough { 5 } else { 4 }, &mut cases)) {
+        return Outcome { cex: Some(c), cases };
+    }
     for a0 in 1..=4 {
         for a1 in 1..=4 {
             for b0 in 1..=4 {
